@@ -197,6 +197,16 @@ func (p *Peer) SendRecords(recs ...[]byte) error {
 func (p *Peer) SendAlert(level, code byte) error { return p.SendRecord(RecAlert, []byte{level, code}) }
 func (p *Peer) SendApp(b []byte) error           { return p.SendRecord(RecApp, b) }
 
+// SkipCCS switches the write keys as SendCCS does without sending the record: a peer that leaves the
+// ChangeCipherSpec message out and carries on in its new epoch.
+func (p *Peer) SkipCCS() {
+	if p.DTLS && (p.ccsSent || p.pendWr == nil) {
+		return
+	}
+	p.ccsSent = true
+	p.activateWrite()
+}
+
 // SendCCS sends change_cipher_spec and switches the write keys (when keys exist).
 func (p *Peer) SendCCS() error {
 	err := p.SendRecord(RecCCS, []byte{1})
